@@ -55,6 +55,12 @@ class ProgGen:
                 out.append(["var", n])
             elif t[0] == "struct":
                 out.append(["fld", n, "x"])
+            elif t[0] == "structq":
+                out.append(["fld", n, "z"])
+                out.append(["fld2", n, "p", "x"])
+                out.append(["fldidx", n, "a", ["lit", self.rng.randrange(2)]])
+            elif t[0] == "sq":
+                out.append(["idx2", n, ["lit", self.rng.randrange(t[1])], ["lit", self.rng.randrange(t[1])]])
         return out
 
     def float_atoms(self, env):
@@ -146,6 +152,13 @@ class ProgGen:
             elif t[0] == "struct":
                 cands.append((["fld", n, "x"], "int"))
                 cands.append((["fld", n, "y"], "float"))
+            elif t[0] == "structq":
+                cands.append((["fld", n, "z"], "int"))
+                cands.append((["fld2", n, "p", "x"], "int"))
+                cands.append((["fld2", n, "p", "y"], "float"))
+                cands.append((["fldidx", n, "a", self.idx_expr(env, 2)], "int"))
+            elif t[0] == "sq":
+                cands.append((["idx2", n, ["lit", r.randrange(t[1])], self.idx_expr(env, t[1])], "int"))
         gl = [c for c in cands if c[0][1] in self.gmap]
         return r.choice(gl if gl and r.random() < 0.7 else cands)
 
@@ -187,11 +200,17 @@ class ProgGen:
                 elif ch < 0.7:
                     t = ["float"]
                     init = self.float_expr(env) if r.random() < 0.5 else None
-                elif ch < 0.9:
+                elif ch < 0.82:
                     t = ["arr", "int", r.randint(2, 4)]
                     init = None
-                else:
+                elif ch < 0.9:
                     t = ["struct"]
+                    init = None
+                elif ch < 0.95:
+                    t = ["sq", r.randint(2, 3)]
+                    init = None
+                else:
+                    t = ["structq"]
                     init = None
                 out.append(["decl", t, nm, init])
                 env[nm] = t
@@ -280,14 +299,14 @@ class ProgGen:
             g = ["var", r.choice(gints)]
             self.lc += 1
             kind = r.random()
-            if kind < 0.4:
+            if kind < 0.35:
                 nm = f"a{self.lc}x"
                 tpl = [
                     ["decl", ["int"], nm, None],
                     ["assign", ["var", nm], "=", ["bin", "+", ["var", nm], self.int_expr(env0, 1)]],
                     ["assign", g, "=", ["bin", "+", g, ["var", nm]]],
                 ]
-            elif kind < 0.8:
+            elif kind < 0.7:
                 nm = f"h{self.lc}x"
                 n_ = r.randint(2, 4)
                 c = ["lit", r.randrange(n_)]
@@ -296,12 +315,34 @@ class ProgGen:
                     ["assign", ["idx", nm, c], "+=", ["lit", r.randint(1, 3)]],
                     ["assign", g, "=", ["bin", "+", g, ["idx", nm, c]]],
                 ]
-            else:
+            elif kind < 0.85:
                 nm = f"s{self.lc}x"
                 tpl = [
                     ["decl", ["struct"], nm, None],
                     ["assign", ["fld", nm, "x"], "=", ["bin", "+", ["fld", nm, "x"], ["lit", r.randint(1, 3)]]],
                     ["assign", g, "=", ["bin", "+", g, ["fld", nm, "x"]]],
+                ]
+            elif kind < 0.93:
+                # nested aggregate: square 2-D local, an inner row is written in place
+                nm = f"m{self.lc}x"
+                n_ = r.randint(2, 3)
+                c1, c2 = ["lit", r.randrange(n_)], ["lit", r.randrange(n_)]
+                slot = ["idx2", nm, c1, c2]
+                tpl = [
+                    ["decl", ["sq", n_], nm, None],
+                    ["assign", slot, "=", ["bin", "+", slot, ["lit", r.randint(1, 3)]]],
+                    ["assign", g, "=", ["bin", "+", g, slot]],
+                ]
+            else:
+                # nested aggregate: struct holding a struct and an array
+                nm = f"q{self.lc}x"
+                c = ["lit", r.randrange(2)]
+                tpl = [
+                    ["decl", ["structq"], nm, None],
+                    ["assign", ["fldidx", nm, "a", c], "=", ["bin", "+", ["fldidx", nm, "a", c], ["lit", r.randint(1, 3)]]],
+                    ["assign", ["fld2", nm, "p", "x"], "=", ["bin", "+", ["fld2", nm, "p", "x"], ["lit", r.randint(1, 3)]]],
+                    ["assign", g, "=", ["bin", "+", ["bin", "+", g, ["fldidx", nm, "a", c]],
+                                        ["bin", "+", ["fld2", nm, "p", "x"], ["fld", nm, "z"]]]],
                 ]
             pos = r.randint(0, len(body))
             body[pos:pos] = tpl
